@@ -1407,12 +1407,13 @@ theorem renderNum_valid (hnum : NumValid) {f : Str} {v : Value} {t : Option Str}
   cases v with
   | num q i =>
     simp only at h
-    cases hq : Num.numToStr Num.exactIEEE f q with
+    generalize preRound f i q = q' at h
+    cases hq : Num.numToStr Num.exactIEEE f q' with
     | ok t' =>
       rw [hq] at h
       simp only [Rendered.ok.injEq, Option.some.injEq] at h
       subst h
-      exact hnum f q _ hq
+      exact hnum f q' _ hq
     | valueError => rw [hq] at h; cases h
     | assertionError => rw [hq] at h; cases h
     | unsupported => rw [hq] at h; cases h
